@@ -2,6 +2,7 @@ package main
 
 import (
 	"fmt"
+	"go/token"
 	"go/types"
 	"sort"
 	"strings"
@@ -261,9 +262,26 @@ func (fx *FX) autoInvariants(fr *frame, b *ssa.BasicBlock) []func(fr *frame) Ter
 		}
 		if phi.Comment == "rangeindex" {
 			p := phi
+			// the loop condition is (phi+1) < n for a length n computed before the loop
+			var lenVal ssa.Value
+			for _, in2 := range b.Instrs {
+				if bo, ok := in2.(*ssa.BinOp); ok && bo.Op == token.LSS {
+					if add, ok := bo.X.(*ssa.BinOp); ok && add.Op == token.ADD && add.X == ssa.Value(p) {
+						lenVal = bo.Y
+					}
+				}
+			}
 			out = append(out, func(fr *frame) Term {
 				v := fr.vals[p].T
-				return Ge(v, Resize(withSign(BVLit(^uint64(0), 64), true), bvWidth(v.Sort), true))
+				lo := Ge(v, Resize(withSign(BVLit(^uint64(0), 64), true), bvWidth(v.Sort), true))
+				if lenVal != nil {
+					if lv, ok := fr.vals[lenVal]; ok && lv.T.Sort == v.Sort {
+						n := lv.T
+						n.Signed = true
+						return And(lo, Or(Lt(v, n), Eq(v, Resize(withSign(BVLit(^uint64(0), 64), true), bvWidth(v.Sort), true))))
+					}
+				}
+				return lo
 			})
 		}
 	}
